@@ -177,3 +177,34 @@ pub fn wres(r: &Option<Result<usize, RtcpWriteError>>) -> String {
         Some(Err(e)) => format!("err:{}", werr(e)),
     }
 }
+
+#[cfg(test)]
+mod tests {
+    use super::*;
+
+    #[test]
+    fn panics_render_as_panic() {
+        std::panic::set_hook(Box::new(|_| {}));
+        let v: Vec<u8> = vec![1, 2, 3];
+        let idx = v.len() + 2;
+        assert_eq!(num(|| v[idx]), "panic");
+        assert_eq!(num(|| v[1]), "2");
+        // overflow checks must be on in the profile under test
+        let x = u8::MAX;
+        let one = v[0];
+        assert_eq!(num(|| x + one), "panic");
+        let r: Option<Result<usize, RtcpWriteError>> = guard(|| panic!("boom"));
+        assert_eq!(wres(&r), "panic");
+    }
+
+    #[test]
+    fn slices() {
+        let input = vec![0xabu8, 0xcd, 0xef];
+        let other = vec![0x01u8];
+        let base = Base::of(&input);
+        assert_eq!(slice(base, &input[1..]), "cdef@1");
+        assert_eq!(slice(base, &input[3..]), "-@3");
+        assert_eq!(slice(base, &other), "01@ext");
+        assert_eq!(hex(&[]), "-");
+    }
+}
